@@ -49,6 +49,10 @@ type c17Input struct {
 	SP    int       `json:"spmtu,omitempty"`
 	Suite uint16    `json:"suite,omitempty"`
 	Auth  int       `json:"auth,omitempty"`
+	// recv: the fragments from index GapAt on arrive one datagram each, GapMs of wall-clock time apart (the library
+	// ages incomplete reassembly buffers by the wall clock)
+	GapAt int `json:"gap_at,omitempty"`
+	GapMs int `json:"gap_ms,omitempty"`
 }
 
 func fragBytes(f c17Frag) []byte {
@@ -126,6 +130,17 @@ func c17AddCase(out *emit.Out, scenario string, in c17Input) {
 			fs = append(fs, coqFrag(f))
 		}
 		pc := tk.NewSinkPC()
+		if in.GapMs > 0 && in.GapAt < len(in.Frags) {
+			stream = nil
+			for _, f := range in.Frags[:in.GapAt] {
+				stream = append(stream, fragBytes(f)...)
+			}
+			for i, f := range in.Frags[in.GapAt:] {
+				b := fragBytes(f)
+				pc.Inbox = append(pc.Inbox, append([]byte{22, 1, 1, 0, 0, 0, 0, 0, 0, 0, byte(i + 1), byte(len(b) >> 8), byte(len(b))}, b...))
+			}
+			pc.Delay = time.Duration(in.GapMs) * time.Millisecond
+		}
 		msgs, err, pend, pbytes := dtlcp.VerifReadHandshakes(pc, pc.Remote, &dtlcp.Config{}, stream, in.Calls)
 		var ms []string
 		for _, m := range msgs {
@@ -365,6 +380,14 @@ func runC17(p params) error {
 		}
 		sc := []string{"recv-inorder", "recv-reversed", "recv-shuffled-dup", "recv-missing", "recv-overlap", "recv-hostile"}[mode]
 		c17AddCase(out, sc, c17Input{Kind: "recv", Frags: frags, Calls: calls})
+	}
+	// the second half of a message arrives 1.3 s of wall-clock time after the first (a retransmitted flight brings it)
+	{
+		body := rb(200)
+		frags := []c17Frag{{16, 200, 3, 0, 100, body[:100]}, {16, 200, 3, 100, 100, body[100:]}}
+		c17AddCase(out, "recv-second-half-later", c17Input{Kind: "recv", Frags: frags, Calls: 1, GapAt: 1, GapMs: 1300})
+		frags = []c17Frag{{16, 200, 2, 150, 50, body[150:]}, {16, 200, 2, 0, 80, body[:80]}, {16, 200, 2, 80, 70, body[80:150]}}
+		c17AddCase(out, "recv-second-half-later", c17Input{Kind: "recv", Frags: frags, Calls: 1, GapAt: 2, GapMs: 1300})
 	}
 	// interleaved message_seq and the 256-iteration cap
 	{
